@@ -27,12 +27,14 @@ type PathSample struct {
 }
 
 type Scenario struct {
-	ID       int
-	Harness  string
-	Params   []int
-	Label    string
-	MaxSteps int
-	Known    string // known-finding class this scenario is expected to exhibit ("" = none)
+	ID           int
+	Harness      string
+	Params       []int
+	Label        string
+	MaxSteps     int
+	Known        string // known-finding class this scenario is expected to exhibit ("" = none)
+	MayBeVacuous bool
+	NoSummaries  bool // execute the real SWAR/SIMD primitives even when summaries are enabled
 
 	mu           sync.Mutex
 	Paths        int
@@ -170,8 +172,8 @@ func (ex *Explorer) runPath(solver *Solver, it WorkItem) {
 	}()
 	p := &Path{
 		eng: ex.eng, ts: NewTermStore(), solver: solver, scn: scn,
-		decisions: it.decisions, model: it.model,
-		known: map[*Term]uint64{}, substMemo: map[*Term]*Term{},
+		decisions: it.decisions,
+		known:     map[*Term]uint64{}, substMemo: map[*Term]*Term{},
 		globals: map[*ssa.Global]*Cell{}, pools: map[*Cell][]Value{}, strCache: map[string]*Cell{},
 		maxSteps: scn.MaxSteps, collTable: map[string][]*Term{},
 	}
@@ -179,6 +181,7 @@ func (ex *Explorer) runPath(solver *Solver, it WorkItem) {
 		p.maxSteps = 20_000_000
 	}
 	pathRef = p
+	p.addModel(it.model)
 	if ex.wantCov {
 		p.cov = map[*ssa.BasicBlock]bool{}
 	}
@@ -235,6 +238,21 @@ func (ex *Explorer) runPath(solver *Solver, it WorkItem) {
 				}
 			}()
 		}
+	}
+	if outcome != "inconclusive" {
+		func() {
+			defer func() {
+				if r := recover(); r != nil {
+					if pa, ok := r.(pathAbort); ok {
+						outcome = "inconclusive"
+						msg = pa.msg
+						return
+					}
+					panic(r)
+				}
+			}()
+			p.flushPending()
+		}()
 	}
 	if p.inScope {
 		solver.EndPath()
